@@ -16,16 +16,15 @@ Print Assumptions C03_stages_documented.
 (* one criterion: the printed matching is feasible and optimal for the criterion's first stage among ALL feasible
    matchings, for its second stage among the optima of the first, ... (LexOpt), for any correct back end *)
 Theorem C03_single_criterion : forall M pc stab c solve out,
-  wf M = true -> admissible M (mkOpts pc stab [c]) = true -> milp_ok M solve -> expand M c <> [] ->
+  wf M = true -> admissible M (mkOpts pc stab [c]) = true -> milp_ok M solve ->
   run M (mkOpts pc stab [c]) solve = Ok out -> out_status out = Optimal ->
   LexOpt (Feas pc stab M) (map (prim_objective_spec M) (expand M c))
          (matching_of M (val_fun (out_vals out))).
 Proof.
-  intros M pc stab c solve out Hwf Hadm Hok Hne Hrun Hst.
+  intros M pc stab c solve out Hwf Hadm Hok Hrun Hst.
   pose proof (run_lex_optimal_all M (mkOpts pc stab [c]) solve out Hwf Hadm Hok) as H.
   unfold all_prims in H. cbn [o_crits o_pc o_stab flat_map] in H. rewrite app_nil_r in H.
-  apply H; try assumption.
-  intros c' [<-|[]]. exact Hne.
+  apply H; assumption.
 Qed.
 Print Assumptions C03_single_criterion.
 
@@ -39,8 +38,7 @@ Corollary C03_single_stage : forall M pc stab c p solve out,
     if is_max p then prim_meas M p m' <= prim_meas M p m else prim_meas M p m <= prim_meas M p m'.
 Proof.
   intros M pc stab c p solve out Hwf Hadm Hok He Hrun Hst m.
-  assert (Hne : expand M c <> []) by (rewrite He; discriminate).
-  pose proof (C03_single_criterion M pc stab c solve out Hwf Hadm Hok Hne Hrun Hst) as H.
+  pose proof (C03_single_criterion M pc stab c solve out Hwf Hadm Hok Hrun Hst) as H.
   rewrite He in H. cbn [map] in H. destruct (LexOpt_head _ _ _ _ H) as [HF Hbest].
   split; [exact HF|]. intros m' Hm'. specialize (Hbest m' Hm').
   unfold as_good, prim_objective_spec in Hbest. cbn [ob_max ob_meas] in Hbest.
